@@ -8,6 +8,8 @@ import space
 
 
 def run(res, replay=None):
+    # structural tie of phasegen/rewards.py: translate the CURRENT source and re-check proofs/GenRewardsEquiv.v against it
+    import translate_step; (res.proof is not None) and translate_step.run(res.proof, pid=res.pid, tie='rewards')
     rng = random.Random(res.seed)
     res.rule = ('identities stream: random single-locus configurations (n<=5, 1-2 demes, three models, 1-3 epochs, with/'
                 'without end time): sum of SFS = branch length, size-weighted sum = n * height, folded = fold(unfolded), '
